@@ -517,6 +517,11 @@ class CallMixin:
             t = tm.TT.fresh("fn", "partial-comb")
             t.meta = {"combinator": "partial", "cargs": list(args), "ckw": dict(kw), "name": "partial"}
             return t
+        if f.kind == "ext":
+            # functools.partial(jax.jit, backend=...), partial(jax.vmap, in_axes=...): apply later with the extra arguments
+            t = tm.TT.fresh("fn", "partial-ext")
+            t.meta = {"combinator": "partial", "cargs": list(args), "ckw": dict(kw), "name": "partial"}
+            return t
         return None
 
     def apply_combinator(self, name, cargs, ckw, args, kw, fr, node) -> T:
